@@ -145,6 +145,10 @@ class RefSim:
         if fn == "zext": return v, n
         if fn == "trunc": return v & mask(n), n
         return ((v - (1 << w)) if v >> (w - 1) else v) & mask(n), n
+      if fn.startswith("Bits"):               # size cast BitsN( e ): zero-extends or truncates
+        v, w = self.ev(cpath, e[2], env, st)
+        n = int(fn[4:])
+        return v & mask(n), n
       if fn == "concat":
         val, tw = 0, 0
         for a in e[2:]:
